@@ -45,6 +45,10 @@ type sharedPacketConn struct {
 	closeOnce sync.Once
 
 	readDeadline atomic.Pointer[time.Time]
+
+	// writeDeadlineArmed is set while this wrapper has a write deadline armed on
+	// the underlying connection, which siblings share.
+	writeDeadlineArmed atomic.Bool
 }
 
 // newSharedPacketConn increments the shared refcount and returns a wrapper.
@@ -131,6 +135,8 @@ func (s *sharedPacketConn) SetWriteDeadline(t time.Time) error {
 		return io.ErrClosedPipe
 	}
 
+	s.writeDeadlineArmed.Store(!t.IsZero())
+
 	return s.underlying.SetWriteDeadline(t)
 }
 
@@ -159,6 +165,10 @@ func (s *sharedPacketConn) Close() error {
 		s.cancel()
 		if s.refs.Add(-1) <= 0 {
 			err = s.underlying.Close()
+		} else if s.writeDeadlineArmed.Load() {
+			// Siblings keep using the underlying connection: do not leave them the
+			// write deadline this wrapper armed (candidateBase.abortIO arms "now").
+			_ = s.underlying.SetWriteDeadline(time.Time{})
 		}
 	})
 	if !fired {
